@@ -785,6 +785,74 @@ theorem C37_accepted_iff (dn : Nat → N) (dh : H) (nm : H → H) (di : H) (s : 
         · rintro ⟨_, _, hm⟩
           rw [(h.lookup hd hm).1] at hg; cases hg; exact absurd rfl c2
 
+/-! ### devices changed behind the stack's back -/
+
+/-- every entry of an index other than object `r`'s is filed under the current value of the field -/
+def CurExcept {K : Type} (fld : Dev N H → K) (devs : List (Dev N H)) (m : List (K × Nat)) (r : Nat) : Prop :=
+  ∀ p ∈ m, p.2 ≠ r → ∃ d, devs[p.2]? = some d ∧ fld d = p.1
+
+theorem Cur.set_except {K : Type} {fld : Dev N H → K} {devs : List (Dev N H)} {m : List (K × Nat)}
+    (h : Cur fld devs m) (r : Nat) (d' : Dev N H) : CurExcept fld (devs.set r d') m r := by
+  intro p hp hne
+  obtain ⟨x, h1, h2⟩ := h p hp
+  exact ⟨x, by rw [List.getElem?_set_ne (fun e => hne e.symm)]; exact h1, h2⟩
+
+/-- **which index invariants survive a direct assignment** (`remote.name = new` without `renameRemote`, or the
+same device object re-keyed by another stack).  The indexes themselves are untouched, so what survives is:
+no duplicate keys, no remote twice, the three indexes hold the same remotes, no key equals the local device's,
+and every entry of the TWO OTHER indexes is still under its current key; in the index of the assigned field every
+entry except that device's is.  What is lost is exactly "the device is indexed under its current name" — unless
+the device is not indexed (then nothing is lost) or the value is unchanged. -/
+theorem C37_direct_assignment_survivors (s s' : St N H) (h : Inv s) (t : Tamper N H) (ht : tamper s t = some s') :
+    (dkeys s'.uidR).Nodup ∧ (dkeys s'.nameR).Nodup ∧ (dkeys s'.haR).Nodup ∧ (ids s'.uidR).Nodup ∧
+    (ids s'.nameR).Perm (ids s'.uidR) ∧ (ids s'.haR).Perm (ids s'.uidR) ∧
+    s'.loc.uid ∉ dkeys s'.uidR ∧ s'.loc.name ∉ dkeys s'.nameR ∧ s'.loc.ha ∉ dkeys s'.haR ∧
+    (match t with
+     | .setUid r _ => CurExcept Dev.uid s'.devs s'.uidR r ∧ Cur Dev.name s'.devs s'.nameR ∧ Cur Dev.ha s'.devs s'.haR ∧
+         (r ∉ ids s.uidR → Inv s')
+     | .setName r _ => Cur Dev.uid s'.devs s'.uidR ∧ CurExcept Dev.name s'.devs s'.nameR r ∧ Cur Dev.ha s'.devs s'.haR ∧
+         (r ∉ ids s.uidR → Inv s')
+     | .setHa r _ => Cur Dev.uid s'.devs s'.uidR ∧ Cur Dev.name s'.devs s'.nameR ∧ CurExcept Dev.ha s'.devs s'.haR r ∧
+         (r ∉ ids s.uidR → Inv s')) := by
+  have full : ∀ {K : Type} (fld : Dev N H → K) (m : List (K × Nat)) (r : Nat) (d' : Dev N H),
+      Cur fld s.devs m → r ∉ ids m → Cur fld (s.devs.set r d') m := by
+    intro K fld m r d' hc hr p hp
+    have hne : p.2 ≠ r := fun e => hr (e ▸ List.mem_map.2 ⟨p, hp, rfl⟩)
+    exact hc.set_except r d' p hp hne
+  cases t with
+  | setUid r new =>
+    simp only [tamper] at ht
+    cases hd : s.devs[r]? with
+    | none => simp [hd] at ht
+    | some d =>
+      simp only [hd, Option.map_some, Option.some.injEq] at ht; subst ht
+      refine ⟨h.nodupU, h.nodupN, h.nodupH, h.idsNodup, h.sameN, h.sameH, h.locU, h.locN, h.locH,
+        h.curU.set_except r _, h.curN.set_other hd rfl, h.curH.set_other hd rfl, ?_⟩
+      intro hr
+      exact { h with curU := full _ _ r _ h.curU hr, curN := h.curN.set_other hd rfl, curH := h.curH.set_other hd rfl }
+  | setName r new =>
+    simp only [tamper] at ht
+    cases hd : s.devs[r]? with
+    | none => simp [hd] at ht
+    | some d =>
+      simp only [hd, Option.map_some, Option.some.injEq] at ht; subst ht
+      refine ⟨h.nodupU, h.nodupN, h.nodupH, h.idsNodup, h.sameN, h.sameH, h.locU, h.locN, h.locH,
+        h.curU.set_other hd rfl, h.curN.set_except r _, h.curH.set_other hd rfl, ?_⟩
+      intro hr
+      exact { h with curU := h.curU.set_other hd rfl,
+                     curN := full _ _ r _ h.curN (fun x => hr (h.sameN.mem_iff.1 x)), curH := h.curH.set_other hd rfl }
+  | setHa r new =>
+    simp only [tamper] at ht
+    cases hd : s.devs[r]? with
+    | none => simp [hd] at ht
+    | some d =>
+      simp only [hd, Option.map_some, Option.some.injEq] at ht; subst ht
+      refine ⟨h.nodupU, h.nodupN, h.nodupH, h.idsNodup, h.sameN, h.sameH, h.locU, h.locN, h.locH,
+        h.curU.set_other hd rfl, h.curN.set_other hd rfl, h.curH.set_except r _, ?_⟩
+      intro hr
+      exact { h with curU := h.curU.set_other hd rfl, curN := h.curN.set_other hd rfl,
+                     curH := full _ _ r _ h.curH (fun x => hr (h.sameH.mem_iff.1 x)) }
+
 end
 
 /-! non-vacuity: the sequence of the unit test, then a second remote, collisions and removal -/
@@ -827,6 +895,16 @@ example : ((run (step dnE 0 nmE 0) s0 [.create none none (some 7), .add 0, .crea
     .create none none (some 9)]).1.devs.map Dev.uid) = [2, 3, 4] := by decide
 example : ((run (step dnE 0 nmE 0) s0 [.create (some 2) none (some 7), .add 0, .create (some 3) none (some 8), .add 1,
     .create none none (some 9)]).1.devs.map Dev.uid) = [2, 3, 4] := by decide
+/-- **what is lost**: after `remote.name = …` behind the stack's back, `removeRemote(remote)` deletes the uid entry,
+then fails with KeyError on the name index and leaves the remote in the name and ha indexes only: the three
+indexes no longer hold the same remotes (so C37 is a property of histories made of the stack's own methods) -/
+theorem C37_counterexample_direct_assignment :
+    ∃ s1 s2 : St Nat Nat, Inv s0 ∧ (run (step dnE 0 nmE 0) s0 [.create none none (some 7), .add 0]).1 = s1 ∧
+      tamper s1 (.setName 0 55) = some s2 ∧
+      step dnE 0 nmE 0 s2 (.remove 0) =
+        ({ s2 with uidR := [] }, .crashed .KeyError) ∧ s2.nameR = [(102, 0)] ∧ s2.haR = [(7, 0)] := by
+  refine ⟨_, _, (C37_init_consistent dnE 0 nmE 0 _ _ _ _).1, rfl, rfl, ?_, ?_, ?_⟩ <;> decide
+
 end Examples
 
 end Ioflo.Remotes
